@@ -32,33 +32,8 @@ theorem pendE_reg {s : Sh} {i : Nat} {e : Elem} (hr : Reg s e) (hp : pendE s i e
     List.contains_eq_mem, decide_eq_false_iff_not] at hp
   exact hr i hp.1 hp.2
 
-theorem one_pending {s : Sh} {ts : List Th} (h1 : Inv s ts) (h2 : Inv2 s ts) (i : Nat) :
-    pendHeap s i + tsum (pendTh s i) ts ≤ 1 ∧
-    (regGet s.reg i = none → pendHeap s i + tsum (pendTh s i) ts = 0) := by
-  cases hg : regGet s.reg i with
-  | none =>
-    have hh : pendHeap s i = 0 := by
-      unfold pendHeap
-      rw [List.countP_eq_zero]
-      intro e he hp
-      have := pendE_reg (h2.e1 e he) hp
-      rw [hg] at this; cases this
-    have ht : tsum (pendTh s i) ts = 0 := by
-      apply tsum_zero
-      intro t ht
-      unfold pendTh
-      cases hheld : t.held with
-      | none => rfl
-      | some e =>
-        simp only
-        split
-        · rename_i hp
-          have := pendE_reg (h2.e2 t ht e hheld) hp
-          rw [hg] at this; cases this
-        · rfl
-    exact ⟨by omega, fun _ => by omega⟩
-  | some x =>
-    refine ⟨?_, fun h => by cases h⟩
+theorem one_pending_aux {s : Sh} {ts : List Th} (h1 : Inv s ts) (h2 : Inv2 s ts) {i x : Nat}
+    (hg : regGet s.reg i = some x) : pendHeap s i + tsum (pendTh s i) ts ≤ 1 := by
     have hlv := lv_le_one h1 x
     have hh : pendHeap s i ≤ hc x s.heap := by
       unfold pendHeap hc
@@ -87,5 +62,65 @@ theorem one_pending {s : Sh} {ts : List Th} (h1 : Inv s ts) (h2 : Inv2 s ts) (i 
     rw [tsum_add] at ht
     unfold lv at hlv
     omega
+
+
+theorem one_pending {s : Sh} {ts : List Th} (h1 : Inv s ts) (h2 : Inv2 s ts) (i : Nat) :
+    pendHeap s i + tsum (pendTh s i) ts ≤ 1 ∧
+    (regGet s.reg i = none → pendHeap s i + tsum (pendTh s i) ts = 0) ∧
+    (∀ x, regGet s.reg i = some x → x ∈ s.closed → pendHeap s i + tsum (pendTh s i) ts = 0) := by
+  cases hg : regGet s.reg i with
+  | none =>
+    have hh : pendHeap s i = 0 := by
+      unfold pendHeap
+      rw [List.countP_eq_zero]
+      intro e he hp
+      have := pendE_reg (h2.e1 e he) hp
+      rw [hg] at this; cases this
+    have ht : tsum (pendTh s i) ts = 0 := by
+      apply tsum_zero
+      intro t ht
+      unfold pendTh
+      cases hheld : t.held with
+      | none => rfl
+      | some e =>
+        simp only
+        split
+        · rename_i hp
+          have := pendE_reg (h2.e2 t ht e hheld) hp
+          rw [hg] at this; cases this
+        · rfl
+    exact ⟨by omega, (fun _ => by omega), (fun x hx => by cases hx)⟩
+  | some x =>
+    refine ⟨?_, (fun h => by cases h), ?_⟩
+    · exact one_pending_aux h1 h2 hg
+    · intro y hy hcl
+      cases hy
+      -- a pending task of `i` would be registered as `x`, but `x`'s channel is closed
+      have hopen : ∀ e, pendE s i e = true → Reg s e → False := by
+        intro e hp hr
+        have := pendE_reg hr hp
+        rw [hg] at this
+        have hx : e.serial = x := (Option.some.inj this).symm
+        simp only [pendE, Bool.and_eq_true, beq_iff_eq, Bool.not_eq_eq_eq_not, Bool.not_true,
+          List.contains_eq_mem, decide_eq_false_iff_not] at hp
+        exact hp.2 (hx ▸ hcl)
+      have hh : pendHeap s i = 0 := by
+        unfold pendHeap
+        rw [List.countP_eq_zero]
+        intro e he hp
+        exact hopen e hp (h2.e1 e he)
+      have ht : tsum (pendTh s i) ts = 0 := by
+        apply tsum_zero
+        intro t ht
+        unfold pendTh
+        cases hheld : t.held with
+        | none => rfl
+        | some e =>
+          simp only
+          split
+          · rename_i hp; exact (hopen e hp (h2.e2 t ht e hheld)).elim
+          · rfl
+      omega
+
 
 end Hive.Timed
